@@ -484,6 +484,11 @@ class Evaluator:
                     raise
                 except Unknown:
                     pass
+            if n.get("array"):
+                # new T[n]: a fresh array; its cells are env["NEW<k>[i]"]
+                base = "NEW%d" % self._newid
+                self.trace.append(("new[] " + (n.get("alloct") or "?"), [base] + argv, n))
+                return ("ptr", base, 0)
             self.trace.append(("new " + (n.get("ct") or "?"), [self._newid] + argv, n))
             return self._newid
         if k in ("CXXConstructExpr", "CXXTemporaryObjectExpr", "CXXFunctionalCastExpr"):
